@@ -98,21 +98,29 @@ def distribution(cases):
 TECHNIQUE = ("Coq proof over a hand-written Gallina model of scanner.go and parser.go (scanner invariant, every primitive "
              "monotone in the offset, ranges [scope start, offset) by construction, induction on loop fuel) + "
              "model/implementation correspondence on generated texts through extraction, with the executable "
-             "specification (wf_tree_b, cover_b, wf_leaves_b, err_in_bounds_b) evaluated on the Go parser's own output; the "
+             "specification (wf_tree_b, cover_b, wf_leaves_b, wf_keywords_b, err_in_bounds_b) evaluated on the Go parser's own output; the "
              "lexical classes are proved by inversion of the parser (what each successful primitive consumed) and a "
-             "decoding lemma from the scanner's rune chunks to the executable regular expressions over runes")
-LEVEL_TEXT = ("Theorems C07_fuel, C07_err_in_bounds, C07_wf, C07_cover, C07_leaves (Coq, closed under the global context) state "
+             "decoding lemma from the scanner's rune chunks to the executable regular expressions over runes; the keywords by "
+             "the windows of bytes readWhitespace1/ReadAlternative/ReadString consumed plus the first rune each parse "
+             "function accepts")
+LEVEL_TEXT = ("Theorems C07_fuel, C07_err_in_bounds, C07_wf, C07_cover, C07_leaves, C07_keywords (Coq, closed under the global context) state "
               "for every byte list and every letter/digit classification that the parser model terminates within its fuel, "
               "that every error range lies inside the text, that a returned tree is well-formed (wf_tree_b), that the text "
               "outside the directives is whitespace-only and comment lines (cover_b), so gaps and directives interleave to "
               "the input, and that every leaf's slice is in its lexical class (wf_leaves_b: the slice decodes into runes "
               "and is a date dddd-dd-dd, a decimal -?d+(.d+)?, a commodity, an account of ':'-separated segments or a "
               "$macro agreeing with the Macro flag, an interval keyword, a quoted string delimited by two quotes with "
-              "none inside). The model is tied to scanner.go/parser.go by running both on the same texts on every check, "
-              "where wf_tree_b, cover_b and wf_leaves_b are also evaluated on the Go parser's own tree.")
+              "none inside). C07_keywords adds, for classifications in which blanks, newline and the comment markers are not "
+              "alphanumeric (proved of the Unicode tables; refuted without that hypothesis), that the kind of every node "
+              "is justified by the text: blanks, the keyword open/close/price/balance and blanks between date and payload, "
+              "`include` and blanks before a path, `@performance(`...`)` and `@accrue` blanks for present addons "
+              "(wf_keywords_b). The model is tied to scanner.go/parser.go by running both on the same texts on every "
+              "check, where wf_tree_b, cover_b, wf_leaves_b and wf_keywords_b are also evaluated on the Go parser's own tree.")
 LEVEL_NOTE = ("Trusted: Coq kernel; extraction and the OCaml driver; the Go harness; that Model/Scanner.v and Model/Parser.v "
               "are scanner.go and parser.go (hand-written, validated by the correspondence: exact equality of all ranges and "
               "error chains on every case). Go runtime panics are sampled, not excluded by proof. The lexical classes are "
               "stated in terms of the parser's own letter/digit predicates (unicode.IsLetter/IsDigit, so a date may consist "
               "of non-ASCII decimal digits: that such a date is rejected later is a matter of the model builder, not of "
-              "the parser); the blanks between the leaves of a directive are not part of wf_leaves_b.")
+              "the parser); the blanks between the leaves inside a booking, a balance line, a price, an @accrue "
+              "line and the argument list of @performance are not part of the executable statements (only their order and "
+              "nesting, by wf_tree_b).")
